@@ -490,3 +490,69 @@ def write_evidence(ctx, level, coverage, assumptions, violations):
 
 def tla_str_set(xs):
     return "{" + ", ".join('"%s"' % x for x in xs) + "}"
+
+
+# --------------------------------------------------------------------------
+# Row-style binding: real function outputs judged by a TLC "Rows" module
+# --------------------------------------------------------------------------
+
+def rows_check(ctx, pkg, test, module, env=None, timeout=1200, workers=2, rows_name="rows.ndjson",
+               chunk=6000, par=7, crash_is=None):
+    """Run the injected Go driver `test` (writes $VERIF_OUT/rows.ndjson), then TLC `module`
+    over the rows with -continue (rows split in chunks validated by parallel TLC processes).
+    Returns (rows, [(invariant, row_index, row)], aggregate) where aggregate has .distinct/.generated.
+    crash_is: (regex, invariant name) - a driver crash matching regex (e.g. stack overflow) is
+    reported as a failure of that invariant on the row recorded in current.json."""
+    import concurrent.futures
+    out = ctx.sub("rows-" + test.strip("^$"))
+    e = {"VERIF_OUT": out, "VERIF_SEED": str(ctx.seed), "VERIF_TIER": ctx.tier}
+    e.update(env or {})
+    rc, o = go_test(ctx, pkg, test, env=e, timeout=timeout)
+    path = os.path.join(out, rows_name)
+    crash_fail = None
+    if rc != 0 and crash_is and re.search(crash_is[0], o):
+        cur = {}
+        try:
+            cur = json.load(open(os.path.join(out, "current.json")))
+        except Exception:
+            pass
+        crash_fail = (crash_is[1], 0, dict(cur, crash=o[-1500:]))
+    elif rc != 0 or not os.path.exists(path):
+        raise Inconclusive("row driver %s failed (rc=%s):\n%s" % (test, rc, o[-3000:]))
+    rows = []
+    with open(path) as fh:
+        lines = [ln for ln in fh if ln.strip()]
+    for ln in lines:
+        try:
+            rows.append(json.loads(ln))
+        except ValueError:
+            if not crash_fail:
+                raise Inconclusive("row driver %s wrote a torn row" % test)
+    lines = lines[:len(rows)]
+    if not rows and not crash_fail:
+        raise Inconclusive("row driver %s produced no rows" % test)
+    chunks = [(k, lines[k:k + chunk]) for k in range(0, len(lines), chunk)]
+
+    def one(item):
+        k, ls = item
+        return k, len(ls), tlc(ctx, module, files={"rows.ndjson": "".join(ls)}, cont=True, workers=workers,
+                               timeout=timeout)
+    fails = []
+    agg = TLCResult()
+    agg.rc = 0
+    with concurrent.futures.ThreadPoolExecutor(max_workers=par) as ex:
+        for k, n, r in ex.map(one, chunks):
+            tlc_must(ctx, r, module)
+            if r.distinct != n:
+                raise Inconclusive("%s: TLC examined %d rows, chunk has %d" % (module, r.distinct, n))
+            agg.distinct += r.distinct
+            agg.generated += r.generated
+            for viol in r.violations:
+                try:
+                    i = int(viol["state"].get("i", "0"))
+                except ValueError:
+                    i = 0
+                fails.append((viol["name"], k + i, rows[k + i - 1] if 0 < i <= n else {}))
+    if crash_fail:
+        fails.append(crash_fail)
+    return rows, fails, agg
